@@ -102,4 +102,160 @@ theorem insert_empty {st : Store} {node : Nat} {nn : Node} (hr : rd st node = so
   · rw [rd_wr_ne hw2 hj, rd_wr_ne hw1 hj]
   · exact rd_wr_same hw2 hr1
 
+/-! ## attaching the new record under a black parent (no rebalancing needed) -/
+
+/-- the shape after hanging record `node` where the descent for `key` ends -/
+def attachShape (st : Store) (key : Int) (node : Nat) : Shape → Shape
+  | .nil => .node .nil node .nil
+  | .node a i b =>
+    match rd st i with
+    | some nd =>
+      if key > nd.key then .node a i (attachShape st key node b)
+      else if key < nd.key then .node (attachShape st key node a) i b
+      else .node a i b
+    | none => .node a i b
+
+/-- the new record's effect on the pointer structure: if `st'` differs from `st` only in record `node` (now a leaf) and in the
+    child pointer, on the key's side, of the record `p` where the descent ended, then `st'` lays out the attached shape -/
+theorem attach_repr {st st' : Store} (key : Int) (node p : Nat) :
+    ∀ (a : Shape) (i : Nat) (b : Shape) (fuel : Nat), Repr st (.node a i b) (some i) → (Shape.node a i b).ids.Nodup →
+      node ∉ (Shape.node a i b).ids → descend st key fuel i = some (some p) →
+      (∀ j, j ≠ p → j ≠ node → rd st' j = rd st j) →
+      (∃ nn', rd st' node = some nn' ∧ nn'.small = none ∧ nn'.large = none) →
+      (∀ pn, rd st p = some pn → rd st' p = some (if key > pn.key then { pn with large := some node } else { pn with small := some node })) →
+      Repr st' (attachShape st key node (.node a i b)) (some i) ∧ p ∈ (Shape.node a i b).ids
+  | a, i, b, fuel, ⟨_, nd, hr, ha, hb⟩, hnd, hnode, hdesc, F1, F2, F3 => by
+    cases fuel with
+    | zero => simp [descend] at hdesc
+    | succ f =>
+      simp only [Shape.ids, List.nodup_append, List.nodup_cons, List.mem_cons, List.mem_append, not_or] at hnd hnode
+      obtain ⟨nda, ⟨hib, ndb⟩, hdisj⟩ := hnd
+      obtain ⟨hna, hni, hnb⟩ := hnode
+      have hia : i ∉ a.ids := fun h => hdisj i h i (Or.inl rfl) rfl
+      simp only [descend, hr] at hdesc
+      simp only [attachShape, hr]
+      obtain ⟨nn', hrn, hs0, hl0⟩ := F2
+      have keepA : ∀ q, q ≠ i → (p ∉ a.ids) → Repr st' a q → True := fun _ _ _ _ => trivial
+      by_cases h2 : key > nd.key
+      · simp only [h2, ↓reduceIte] at hdesc ⊢
+        cases b with
+        | nil =>
+          have hl : nd.large = none := hb
+          simp only [hl, Option.some.injEq] at hdesc
+          subst hdesc
+          have hri := F3 nd hr
+          simp only [h2, ↓reduceIte] at hri
+          refine ⟨⟨rfl, _, hri, ?_, ?_⟩, by simp [Shape.ids]⟩
+          · exact Repr.congr (fun j hj => F1 j (fun e => hia (e ▸ hj)) (fun e => hna (e ▸ hj))) ha
+          · exact ⟨rfl, nn', hrn, hs0, hl0⟩
+        | node b1 j b2 =>
+          have hl : nd.large = some j := hb.1
+          rw [hl] at hb
+          simp only [hl] at hdesc
+          obtain ⟨ih1, ih2⟩ := attach_repr key node p b1 j b2 f hb ndb hnb hdesc F1 ⟨nn', hrn, hs0, hl0⟩ F3
+          have hpi : p ≠ i := fun e => hib (e ▸ ih2)
+          have hpa : p ∉ a.ids := fun h => hdisj p h p (Or.inr ih2) rfl
+          have hri : rd st' i = some nd := by rw [F1 i (fun e => hpi e.symm) (fun e => hni e.symm)]; exact hr
+          refine ⟨⟨rfl, nd, hri, ?_, ?_⟩, List.mem_append_right _ (List.mem_cons_of_mem _ ih2)⟩
+          · exact Repr.congr (fun q hq => F1 q (fun e => hpa (e ▸ hq)) (fun e => hna (e ▸ hq))) ha
+          · rw [hl]
+            have : attachShape st key node (.node b1 j b2) = attachShape st key node (.node b1 j b2) := rfl
+            -- the attached large subtree still starts at record `j`
+            cases hrj : rd st j with
+            | none => simp only [attachShape, hrj] at ih1 ⊢; exact ih1
+            | some ndj => exact ih1
+      · by_cases h3 : key < nd.key
+        · simp only [h2, h3, ↓reduceIte] at hdesc ⊢
+          cases a with
+          | nil =>
+            have hl : nd.small = none := ha
+            simp only [hl, Option.some.injEq] at hdesc
+            subst hdesc
+            have hri := F3 nd hr
+            simp only [h2, ↓reduceIte] at hri
+            refine ⟨⟨rfl, _, hri, ?_, ?_⟩, by simp [Shape.ids]⟩
+            · exact ⟨rfl, nn', hrn, hs0, hl0⟩
+            · exact Repr.congr (fun j hj => F1 j (fun e => hib (e ▸ hj)) (fun e => hnb (e ▸ hj))) hb
+          | node a1 j a2 =>
+            have hl : nd.small = some j := ha.1
+            rw [hl] at ha
+            simp only [hl] at hdesc
+            obtain ⟨ih1, ih2⟩ := attach_repr key node p a1 j a2 f ha nda hna hdesc F1 ⟨nn', hrn, hs0, hl0⟩ F3
+            have hpi : p ≠ i := fun e => hia (e ▸ ih2)
+            have hpb : p ∉ b.ids := fun h => hdisj p ih2 p (Or.inr h) rfl
+            have hri : rd st' i = some nd := by rw [F1 i (fun e => hpi e.symm) (fun e => hni e.symm)]; exact hr
+            refine ⟨⟨rfl, nd, hri, ?_, ?_⟩, List.mem_append_left _ ih2⟩
+            · rw [hl]; exact ih1
+            · exact Repr.congr (fun q hq => F1 q (fun e => hpb (e ▸ hq)) (fun e => hnb (e ▸ hq))) hb
+        · simp only [h2, h3, ↓reduceIte] at hdesc
+          cases hdesc
+
+theorem attachShape_congr {st st' : Store} (key : Int) (node : Nat) : ∀ {t : Shape}, (∀ i ∈ t.ids, rd st' i = rd st i) →
+    attachShape st' key node t = attachShape st key node t
+  | .nil, _ => rfl
+  | .node a i b, hc => by
+    simp only [attachShape]
+    rw [hc i (by simp [Shape.ids]), attachShape_congr key node (t := a) (fun j hj => hc j (by simp [Shape.ids, hj])),
+      attachShape_congr key node (t := b) (fun j hj => hc j (by simp [Shape.ids, hj]))]
+
+/-- NEW KEY UNDER A BLACK PARENT: `insert(tree, node)` with a key the tree does not hold descends to a record `p` of the tree
+    whose child pointer on the key's side is `NULL`; if `p` is black the function hangs the record there as a red leaf and
+    returns the unchanged root: the store then lays out the attached shape, only the records `node` and `p` were written,
+    and `p` got exactly one new child pointer. (With a red `p` the function continues into `rebalance`.) -/
+theorem insert_black_parent {st : Store} {a : Shape} {root : Nat} {b : Shape} {node : Nat} {nn : Node}
+    (hrep : Repr st (.node a root b) (some root)) (hnd : (Shape.node a root b).ids.Nodup)
+    (hnode : node ∉ (Shape.node a root b).ids) (hr : rd st node = some nn)
+    (hnew : Tree.lookup nn.key (absTree st (.node a root b)) = false) :
+    ∃ p pn, p ∈ (Shape.node a root b).ids ∧ rd st p = some pn ∧ nn.key ≠ pn.key ∧
+      (if nn.key > pn.key then pn.large = none else pn.small = none) ∧
+      (pn.color = .black → ∃ st', insert st (some root) node = some (st', some root) ∧
+        Repr st' (attachShape st nn.key node (.node a root b)) (some root) ∧
+        (∀ j, j ≠ p → j ≠ node → rd st' j = rd st j) ∧
+        rd st' node = some { nn with color := .red, small := none, large := none, parent := some p } ∧
+        rd st' p = some (if nn.key > pn.key then { pn with large := some node } else { pn with small := some node })) := by
+  obtain ⟨st1, hw1⟩ : ∃ st1, wr st node (fun nd => { nd with color := .red, small := none, large := none }) = some st1 :=
+    ⟨_, wr_of_rd _ hr⟩
+  have hsame : ∀ j, j ≠ node → rd st1 j = rd st j := fun j hj => rd_wr_ne hw1 hj
+  have hids : ∀ i ∈ (Shape.node a root b).ids, rd st1 i = rd st i := fun i hi => hsame i (fun h => hnode (h ▸ hi))
+  have hrep1 : Repr st1 (.node a root b) (some root) := Repr.congr hids hrep
+  have habs : absTree st1 (.node a root b) = absTree st (.node a root b) := absTree_congr hids
+  have hrn : rd st1 node = some { nn with color := .red, small := none, large := none } := rd_wr_same hw1 hr
+  have hh := hrep1.height_le_size hnd
+  obtain ⟨r, e1, e2, e3⟩ := descend_repr nn.key (st1.size + 1) hrep1 (by omega)
+  cases r with
+  | none => rw [habs, hnew] at e2; exact absurd (e2.mp rfl) (by simp)
+  | some p =>
+    obtain ⟨hp, pn, hrp1, hne, hchild⟩ := e3 p rfl
+    have hpn : p ≠ node := fun e => hnode (e ▸ hp)
+    have hrp : rd st p = some pn := by rw [← hids p hp]; exact hrp1
+    refine ⟨p, pn, hp, hrp, hne, hchild, fun hblack => ?_⟩
+    obtain ⟨st2, hw2⟩ : ∃ st2, wr st1 node (fun nd => { nd with parent := some p }) = some st2 := ⟨_, wr_of_rd _ hrn⟩
+    have hrp2 : rd st2 p = some pn := by rw [rd_wr_ne hw2 hpn]; exact hrp1
+    have hrn2 := rd_wr_same hw2 hrn
+    by_cases hlt : nn.key < pn.key
+    · have hgt : ¬ nn.key > pn.key := by omega
+      obtain ⟨st3, hw3⟩ : ∃ st3, wr st2 p (fun nd => { nd with small := some node }) = some st3 := ⟨_, wr_of_rd _ hrp2⟩
+      have F1 : ∀ j, j ≠ p → j ≠ node → rd st3 j = rd st1 j := fun j h1 h2 => by rw [rd_wr_ne hw3 h1, rd_wr_ne hw2 h2]
+      have hn3 : rd st3 node = some { nn with color := .red, small := none, large := none, parent := some p } := by
+        rw [rd_wr_ne hw3 hpn.symm]; exact hrn2
+      have hp3 : rd st3 p = some { pn with small := some node } := rd_wr_same hw3 hrp2
+      refine ⟨st3, ?_, ?_, fun j h1 h2 => by rw [F1 j h1 h2]; exact hsame j h2, hn3, by simp only [hgt, ↓reduceIte]; exact hp3⟩
+      · simp only [insert, hw1, hrn, e1, hw2, hrp2, hlt, ↓reduceIte, hw3, hblack]
+        simp
+      · rw [← attachShape_congr nn.key node hids]
+        exact (attach_repr nn.key node p a root b (st1.size + 1) hrep1 hnd hnode e1 F1 ⟨_, hn3, rfl, rfl⟩
+          (fun pn' hpn' => by rw [hrp1] at hpn'; cases hpn'; simp only [hgt, ↓reduceIte]; exact hp3)).1
+    · have hgt : nn.key > pn.key := by omega
+      obtain ⟨st3, hw3⟩ : ∃ st3, wr st2 p (fun nd => { nd with large := some node }) = some st3 := ⟨_, wr_of_rd _ hrp2⟩
+      have F1 : ∀ j, j ≠ p → j ≠ node → rd st3 j = rd st1 j := fun j h1 h2 => by rw [rd_wr_ne hw3 h1, rd_wr_ne hw2 h2]
+      have hn3 : rd st3 node = some { nn with color := .red, small := none, large := none, parent := some p } := by
+        rw [rd_wr_ne hw3 hpn.symm]; exact hrn2
+      have hp3 : rd st3 p = some { pn with large := some node } := rd_wr_same hw3 hrp2
+      refine ⟨st3, ?_, ?_, fun j h1 h2 => by rw [F1 j h1 h2]; exact hsame j h2, hn3, by simp only [hgt, ↓reduceIte]; exact hp3⟩
+      · simp only [insert, hw1, hrn, e1, hw2, hrp2, hlt, ↓reduceIte, hw3, hblack]
+        simp
+      · rw [← attachShape_congr nn.key node hids]
+        exact (attach_repr nn.key node p a root b (st1.size + 1) hrep1 hnd hnode e1 F1 ⟨_, hn3, rfl, rfl⟩
+          (fun pn' hpn' => by rw [hrp1] at hpn'; cases hpn'; simp only [hgt, ↓reduceIte]; exact hp3)).1
+
 end EaselModel.Containers.RedBlackPtr
